@@ -130,7 +130,7 @@ pub struct Child {
     pub effects_answer: bool,
 }
 
-pub const SLOTS: usize = 6;
+pub const SLOTS: usize = 8;
 pub static mut CHILD_ANSWER_KIND: [u8; SLOTS] = [7; SLOTS];
 pub static mut CHILD_ANSWER_NUMBER: [f64; SLOTS] = [0.0; SLOTS];
 pub static mut CHILD_EFFECTS_ANSWER: [bool; SLOTS] = [false; SLOTS];
@@ -179,7 +179,7 @@ pub fn child_expression(slot: usize, child: Child) -> Expression {
     }
 }
 
-pub const SLOT_NAMES: [&str; SLOTS] = ["a", "b", "c", "d", "e", "f"];
+pub const SLOT_NAMES: [&str; SLOTS] = ["a", "b", "c", "d", "e", "f", "g", "h"];
 
 #[cfg(not(kani))]
 pub fn realise(slot: usize, child: Child) -> Expression {
